@@ -456,6 +456,19 @@ def run(ctx):
             todo = dict(perturbations(g, ctx.rng, cp, choose))
             if nm not in todo:
                 continue
+            # the SAME pair of objects is compared before the change (equal) and after it: a verdict remembered from the first
+            # comparison must not survive the change
+            try:
+                warm = fixed.deep_eq(cp) and cp.deep_eq(fixed)
+                na0, nb0 = nodes_by_uuid(fixed), nodes_by_uuid(cp)
+                for u0, x0 in na0.items():
+                    if u0 in nb0 and not isinstance(x0, g.IR):
+                        warm = x0.deep_eq(nb0[u0]) and nb0[u0].deep_eq(x0) and warm
+                fixed.cfg.deep_eq(cp.cfg)
+                if warm is not True:
+                    ctx.add("oracle", "deep_eq-wrong:save/load copy", "the fixed IR and its save/load copy are not deep_eq (whole or node by node)", {"tag": "F"})
+            except Exception as e:  # noqa: BLE001
+                ctx.add("oracle", "deep_eq-raised:node", "deep_eq raised %s on a save/load copy" % exc_name(g, e), {"tag": "F"})
             try:
                 if todo[nm]() is False:
                     continue
